@@ -1497,6 +1497,21 @@ void MathExplorer::run_complex()
     }
 }
 
+// pow(x, integer): one pseudo-function per exponent type (C14 only: the references are dummies, the loop ticks are judged)
+static const std::vector<MFun>& ipow_funs()
+{
+    static const std::vector<MFun> v = []
+    {
+        static const d2 zero2 = [](double, double) { return 0.0; };
+        static const l2 zero2l = [](long double, long double) { return 0.0L; };
+        std::vector<MFun> r;
+        for (const char* nm : { "ipow.i16", "ipow.i32", "ipow.i64", "ipow.u16", "ipow.u32", "ipow.u64" })
+            r.push_back(MFun { nm, 2, nullptr, zero2, nullptr, zero2l, nullptr, nullptr, 1e30, 1e30, R_POW, 64, 64, false, false, 0, nm });
+        return r;
+    }();
+    return v;
+}
+
 template <class T>
 void MathExplorer::run_all()
 {
@@ -1513,11 +1528,9 @@ void MathExplorer::run_all()
         // C14, pow with an integer exponent: every entry of the exponent table of each integer type (0, +-1, small, 2^k -+ 1,
         // the extremes of the type and their neighbours and halves) x a value alphabet; the square-and-multiply loop
         // makes one hooked iteration per bit of the exponent, so 64 bounds every type
-        static const d2 zero2 = [](double, double) { return 0.0; };
-        static const l2 zero2l = [](long double, long double) { return 0.0L; };
-        for (const char* nm : { "ipow.i16", "ipow.i32", "ipow.i64", "ipow.u16", "ipow.u32", "ipow.u64" })
+        for (const MFun& f : ipow_funs())
         {
-            MFun f { nm, 2, nullptr, zero2, nullptr, zero2l, nullptr, nullptr, 1e30, 1e30, R_POW, 64, 64, false, false, 0, nm };
+            const char* nm = f.name;
             if (!only.empty() && !only.count(nm))
                 continue;
             constexpr int elem = std::is_same<T, float>::value ? XV_F32 : XV_F64;
@@ -1633,6 +1646,10 @@ int main(int argc, char** argv)
     {
         // one batch, executed twice; every lane judged with the function's rule against MPFR
         const MFun* f = find_mfun(replay_fn);
+        if (!f)
+            for (auto& g : ipow_funs())
+                if (replay_fn == g.name)
+                    f = &g;
         if (!f)
         {
             fprintf(stderr, "replay: unknown function %s\n", replay_fn.c_str());
